@@ -232,7 +232,7 @@ class GEXTest:
                 kex_group.recv_reply(s, False)
                 smallest_modulus = kex_group.get_dh_modulus_size()
                 out.d('GEXTest._send_init(%s, %u, %u, %u): received modulus size: %d' % (gex_alg, min_bits, pref_bits, max_bits, smallest_modulus), write_now=True)
-        except KexDHException as e:
+        except (KexDHException, struct.error, ValueError, IndexError) as e:  # Malformed replies surface as parsing errors of various kinds.
             out.d('GEXTest._send_init(%s, %u, %u, %u): exception when performing DH group exchange init: %s' % (gex_alg, min_bits, pref_bits, max_bits, str(e)), write_now=True)
         finally:
             s.close()
